@@ -1,6 +1,7 @@
 package c04
 
 import (
+	"encoding/json"
 	"fmt"
 	"os"
 	"testing"
@@ -79,7 +80,9 @@ func TestPropSequential(t *testing.T) {
 				t.Fatalf("%s\ncase: %s", msg, c)
 			}
 			if nt {
-				ev.Sample("seq-nontrivial", 4, func() interface{} { return map[string]interface{}{"handlers": c.Handlers, "request": rq, "responses": strs(r.Obs[i].Resp)} })
+				ev.Sample("seq-nontrivial", 4, func() interface{} {
+					return map[string]interface{}{"handlers": c.Handlers, "request": rq, "responses": strs(r.Obs[i].Resp)}
+				})
 			}
 		}
 		if !r.ProbeOK {
@@ -104,17 +107,27 @@ func TestPropConcurrent(t *testing.T) {
 		c := reqcase.Case{Name: "svc", Workers: rapid.SampledFrom([]int{1, 3, 8, 32}).Draw(t, "workers")}
 		c.Handlers = reqcase.GenHandlers().Draw(t, "handlers")
 		n := rapid.IntRange(2, 200).Draw(t, "nreq")
-		seen := map[string]bool{}
+		// a hot request shape that most of the batch repeats, so that one group gets a long queue
+		hot := reqcase.GenRequest(c.Name, c.Handlers, "").Draw(t, "hot")
 		for i := 0; i < n; i++ {
 			rq := reqcase.GenRequest(c.Name, c.Handlers, "").Draw(t, "req")
-			ty, rn, m, ok := svc.SplitSubject(rq.Subject)
-			key := ty + " " + rn + " " + m
-			if !ok || seen[key] {
+			if rapid.IntRange(0, 9).Draw(t, "usehot") < 6 {
+				rq.Subject = hot.Subject
+			}
+			if _, _, _, ok := svc.SplitSubject(rq.Subject); !ok {
 				continue
 			}
-			seen[key] = true
+			if rq.Fields != nil {
+				cp := map[string]json.RawMessage{}
+				for k, v := range rq.Fields {
+					cp[k] = v
+				}
+				rq.Fields = cp
+			}
 			c.Reqs = append(c.Reqs, rq)
 		}
+		reqcase.TagQueries(&c)
+		// scripts were generated for the request's own routing; regenerate nothing: the count oracle does not depend on them
 		r := reqcase.RunConcurrent(&c)
 		if r.StartErr != nil {
 			t.Fatalf("service did not start: %v", r.StartErr)
@@ -153,4 +166,22 @@ func TestRegressNewHandlerWithoutReply(t *testing.T) {
 	}
 	evid.ReportKnown(t, prop, "C04-new-handler-no-reply", msg != "", msg, c)
 	ev.Case(true, evid.Hash("regress-new"), "regress")
+}
+
+// TestPropTrickle: a few requests in flight on ONE group (so the group's queue keeps
+// hovering around one element) while other goroutines submit no-op WithGroup callbacks
+// to the same group; every request must still get exactly one response.
+func TestPropTrickle(t *testing.T) {
+	rapid.Check(t, func(rt *rapid.T) {
+		workers := rapid.SampledFrom([]int{1, 2, 4, 8}).Draw(rt, "workers")
+		window := rapid.IntRange(1, 3).Draw(rt, "window")
+		noise := rapid.IntRange(1, 4).Draw(rt, "noise")
+		total := evid.Pick(20000, 60000)
+		msg := trickle(workers, window, noise, total)
+		ev.Case(true, evid.Hash("trickle", workers, window, noise), "trickle")
+		ev.Add("trickle-requests", int64(total))
+		if msg != "" {
+			rt.Fatalf("%s (workers %d, window %d, noise goroutines %d)", msg, workers, window, noise)
+		}
+	})
 }
